@@ -39,10 +39,10 @@ def _case_term(l):
                        _KIND[kind], coq_bytes(group), coq_bytes(goname), coq_bytes(tag), coq_bytes(hname), coq_bytes(hdef),
                        "true" if bound == "1" else "false", coq_bytes(usage), coq_bytes(init), coq_bytes(envhand), coq_bytes(envobs),
                        _opt(env), _opt(jfile), _opt(jb64), _opt(final), _oracle(oracle)))
-    return "verdict_clean (check_case %s [%s] %s %s %s %s %s %s %s %s)" % (
-        isz, ";\n     ".join(fos), _toks(vec), _opt(cfgfile), "true" if b64set == "1" else "false",
+    return "verdict_clean (check_case %s [%s] %s %s %s %s %s %s %s %s %s)" % (
+        isz, ";\n     ".join(fos), _toks(vec), _opt(cfgfile), "true" if b64set.startswith("1") else "false",
         "true" if ok == "1" else "false", _toks(rest), "None" if help_ == "~" else ("(Some true)" if help_ == "1" else "(Some false)"),
-        callno, "true" if unchanged == "1" else "false")
+        callno, "true" if unchanged == "1" else "false", "true" if b64set.endswith("!") else "false")
 
 
 def c09_casesv(lines):
